@@ -47,7 +47,7 @@ def cases(seed, tier):
     toks = ["(", ")", "{", "}", "[", "]", ";", ",", ".", "?.", "...", "=>", "=", "+=", "+", "`", "${", "'", '"', "/",
             "/*", "*/", "//", "\n", "\\", "function", "class", "return", "yield", "await", "async", "new", "delete",
             "typeof", "import", "export", "let", "const", "a", "b", "f", "trim", "concat", "0", "1n", "0x", "\u2028",
-            "\ud800", "#p", "@", "<!--", "-->", "?", ":", "??=", "**", "static", "get", "super", "this", "null"]
+            "#p", "@", "<!--", "-->", "?", ":", "??=", "**", "static", "get", "super", "this", "null"]
     files = ["/w/src/test.js", "test.js", "", "/", ".", "a/b/../c.js", "/w/\u00e9.js", "C:\\a\\b.js", "x" * 3000 + ".js",
              "/w/dir/", "file with space.mjs", "/w/a.cjs"]
     n_mut = 400 if tier == "quick" else 20000
@@ -179,6 +179,8 @@ def run(seed, tier, extra_cases=None, use_cache=True):
         reqs.append(rq)
     resps = vlib.run_requests(reqs, nproc=vlib.NCPU)
     t1 = time.time()
+    if any((r or {}).get("outcome") == "bad_request" for r in resps):
+        raise vlib.ToolError("the driver could not decode a request (harness bug, not an observation)")
     recs = []
     bycase = {}
     outcomes = {}
@@ -191,6 +193,8 @@ def run(seed, tier, extra_cases=None, use_cache=True):
                        "error": rs.get("error"), "content": rs.get("content"), "metrics": rs.get("metrics")}
         rec = vlib.static_record(rid, rq, rs)
         recs.append(rec)
+        if "cfg" in rec:
+            bycase[rid]["eff"] = rec["cfg"]
         if rec.get("status") == "modified":
             kind = "module" if rec["kind_in"] == "Module" else "script"
             v8jobs.append({"id": rid + "/in", "kind": kind, "code": c["code"]})
